@@ -169,7 +169,12 @@ func norm(r M) M {
 		I("rid", "tid", "eid", "ts")
 	case "CompUpdate":
 		I("tid", "eid", "data", "ts")
-	case "Ping", "PingResp", "Leave", "Debug":
+	case "PingResp":
+		I("rid", "adv", "pidx")
+		if mhas(r, "ref") {
+			S("ref")
+		}
+	case "Ping", "Leave", "Debug":
 		I("rid")
 	case "SignedLatency":
 		I("rid", "n")
